@@ -893,7 +893,7 @@ fn big_cases<B: Bk>(tier: Tier) -> Vec<BigCase> {
     for &op in BIG_OPS.iter() {
         let uses_b = matches!(op, BigOp::AddInto | BigOp::AddSmallInto | BigOp::Sub | BigOp::SubSmallA | BigOp::SubSmallB);
         let uses_a = !matches!(op, BigOp::NegateAssign | BigOp::AutomorphismAssign);
-        for &n in tier.pick(&[8usize, 16, 32][..], &[8usize, 16, 32, 64, 128, 256][..]) {
+        for &n in tier.pick(&[1usize, 2, 4, 8, 16, 32][..], &[1usize, 2, 4, 8, 16, 32, 64, 128, 256][..]) {
             for rs in 1..=smax {
                 for a_s in 1..=(if uses_a { smax } else { 1 }) {
                     for bs in 1..=(if uses_b { smax } else { 1 }) {
